@@ -535,6 +535,9 @@ class GeopackageLevelCache(TileCacheBase):
         level_cache = self._get_level(level)
         if remove_all:
             level_cache.cleanup()
+            with self._geopackage_lock:
+                # the next access has to create the level file again
+                self._geopackage.pop(level, None)
             os.unlink(level_cache.geopackage_file)
             return True
         else:
